@@ -4,10 +4,13 @@
 //!   api     = rust | ffi
 //!   variant = tcp | tls | tlsauthz
 //!   ctor    = spawn | create      (Rust API only: spawn_*_server_task vs create_*_server_task; ffi ignores it)
-//!   filter  = any | exact=IP | set=IP+IP+.. | wc=PATTERN
+//!   filter  = any | exact=IP | set=IP+IP+.. | wc=PATTERN | emptyset | insrem=IP+IP.. (Rust API only: AnyOf(empty), AnyOf emptied again)
 //!   peer    = source IP the client socket is bound to before connecting to <bind_ip> (or to 127.0.0.1 when
 //!             the server is bound to a wildcard address)
 //! or:         reuse <variant+variant..> <bind_ip> <filter> <address added afterwards or -> <peers>   (one C-ABI filter object, several servers)
+//! or:         fseq <create string, hex> <add strings, hex, comma separated or -> <Rust API filter in the syntax above, or ERR> <peers>
+//!             C ABI: rodbus_address_filter_create, then rodbus_address_filter_add per string, then a TCP server with the object;
+//!             Rust API: a TCP server with the given filter. output: create=<rc>;add=<rc>,..;ffi=<codes or ->;rust=<codes or ->
 //! output line: one code per peer, comma separated: S served (Modbus reply / TLS ServerHello arrived),
 //!   C closed without a byte, O open and silent, B<hex> other bytes, E:<kind> connect error; or FAIL:<why>
 use super::p5_common::*;
@@ -33,8 +36,22 @@ fn parse_filter(spec: &str) -> Result<AddressFilter, String> {
     if spec == "any" {
         return Ok(AddressFilter::Any);
     }
+    if spec == "emptyset" {
+        return Ok(AddressFilter::AnyOf(std::collections::HashSet::new()));
+    }
     let (k, v) = spec.split_once('=').ok_or("filter syntax")?;
     match k {
+        // a set that is empty again: every address inserted, then removed
+        "insrem" => {
+            let mut s = std::collections::HashSet::new();
+            for x in v.split('+') {
+                s.insert(x.parse::<IpAddr>().map_err(|_| "bad ip")?);
+            }
+            for x in v.split('+') {
+                s.remove(&x.parse::<IpAddr>().map_err(|_| "bad ip")?);
+            }
+            Ok(AddressFilter::AnyOf(s))
+        }
         "exact" => Ok(AddressFilter::Exact(v.parse().map_err(|_| "bad ip")?)),
         "set" => {
             let mut s = std::collections::HashSet::new();
@@ -287,10 +304,54 @@ fn reuse(env: &Env, p: &[&str]) -> String {
     out.join(";") + &add_rc
 }
 
+fn fseq(env: &Env, p: &[&str]) -> String {
+    if p.len() != 5 {
+        return "FAIL:syntax".into();
+    }
+    let bind_ip: IpAddr = "127.0.0.1".parse().unwrap();
+    let unhex = |h: &str| -> std::ffi::CString { std::ffi::CString::new(crate::util::unhex(h)).unwrap_or_else(|_| cstr("?")) };
+    let create = if p[1] == "-" { cstr("") } else { unhex(p[1]) };
+    let mut filter: *mut rodbus_ffi::AddressFilter = std::ptr::null_mut();
+    let rc = unsafe { ffi::rodbus_address_filter_create(create.as_ptr(), &mut filter) };
+    let mut out = vec![format!("create={}", param_error_name(rc))];
+    let mut adds = Vec::new();
+    if rc == 0 && !filter.is_null() && p[2] != "-" {
+        for a in p[2].split(',') {
+            let c = unhex(a);
+            adds.push(param_error_name(unsafe { ffi::rodbus_address_filter_add(filter, c.as_ptr()) }));
+        }
+    }
+    out.push(format!("add={}", if adds.is_empty() { "-".to_string() } else { adds.join(",") }));
+    if rc == 0 && !filter.is_null() {
+        match start_ffi_with(env, "tcp", bind_ip, filter) {
+            Ok((srv, port)) => {
+                out.push(format!("ffi={}", probe_all(env, bind_ip, port, false, p[4])));
+                unsafe { ffi::rodbus_server_destroy(srv) };
+            }
+            Err(e) => out.push(format!("ffi=FAIL:{e}")),
+        }
+        unsafe { ffi::rodbus_address_filter_destroy(filter) };
+    } else {
+        out.push("ffi=-".into());
+    }
+    if p[3] == "ERR" {
+        out.push("rust=-".into());
+    } else {
+        match parse_filter(p[3]).and_then(|f| start_rust(env, "tcp", "create", bind_ip, f)) {
+            Ok((_server, port)) => out.push(format!("rust={}", probe_all(env, bind_ip, port, false, p[4]))),
+            Err(e) => out.push(format!("rust=FAIL:{e}")),
+        }
+    }
+    out.join(";")
+}
+
 fn scenario(env: &Env, line: &str) -> String {
     let p: Vec<&str> = line.split_whitespace().collect();
     if p.first() == Some(&"reuse") {
         return reuse(env, &p);
+    }
+    if p.first() == Some(&"fseq") {
+        return fseq(env, &p);
     }
     if p.len() != 6 {
         return "FAIL:syntax".into();
